@@ -171,8 +171,9 @@ macro_rules! payload {
 
 // A: 12 bytes, align 4 (the count's own alignment suffices: data offset 8)
 payload!(A, repr(C), 0);
-// B: 32 bytes, align 16 (over-aligned: data offset 16, padding after the count)
-payload!(B, repr(C, align(16)), 17);
+// B: 320 bytes, align 16 (over-aligned: data offset 16, padding after the count; larger than any
+// "small payload" threshold)
+payload!(B, repr(C, align(16)), 305);
 // E: element type of the header-slice family (16 bytes, align 4)
 payload!(E, repr(C), 4);
 
